@@ -31,6 +31,7 @@ class Kit:
     # -- construction (setup) ------------------------------------------
     def int(self, name, lo=None, hi=None):
         v = SInt(V.ivar(name))
+        E.size_hints.append(lambda b, t=v.t: z3.And(t <= b, t >= -b))
         if lo is not None:
             self.st.assume(v >= lo)
         if hi is not None:
@@ -113,6 +114,7 @@ class Contract:
 
     # replay support (optional)
     replay_recipe = None
+    variants = (None,)
 
     def concretize(self, model, a, K):
         return None
@@ -131,25 +133,27 @@ class Report:
         self.setup = None
 
 
-def verify(contract, registry):
+def verify(contract, registry, variant=None):
     """Generate all obligations of one function under contract (not yet discharged)."""
     t0 = time.time()
     rep = Report(contract)
+    rep.variant = variant
     E.reset(contract.mode)
     try:
         fsrc = source.find_function(contract.target)
         rep.fn = fsrc
         st = State()
         K = Kit(st)
-        a = contract.setup(K)
+        a = contract.setup(K) if variant is None else contract.setup(K, variant)
         pre = contract.requires(K, a)
         st.assume(pre)
         rep.setup = (K, a)
         old = Kit(st.copy())
         obls = rep.obligations
-        ex = Exec(fsrc, contract, registry, obls)
+        ex = Exec(fsrc, contract, registry, obls, prefix=fsrc.qual + ('' if variant is None else '[%s]' % variant))
+        base_prefix = ex.prefix
         # vacuity guard: the precondition must be satisfiable
-        obls.append(Obligation(fsrc.qual + '/cover.precondition-satisfiable', list(st.pc), z3.BoolVal(False),
+        obls.append(Obligation(base_prefix + '/cover.precondition-satisfiable', list(st.pc), z3.BoolVal(False),
                                'cover', fsrc.line))
         watermark = _cell[0]
         mod_ids = {r.id for r in contract.modifies(K, a)}
@@ -159,7 +163,7 @@ def verify(contract, registry):
         rep.outcomes = outs
         rep.assumptions |= ex.assumptions
         for i, o in enumerate(outs):
-            ex.prefix = '%s/path%d' % (fsrc.qual, i + 1)
+            ex.prefix = '%s/path%d' % (base_prefix, i + 1)
             ex._obn = {}
             Ko = Kit(o.st, ex)
             if o.kind == 'raise':
@@ -182,5 +186,6 @@ def verify(contract, registry):
     except SymErr as e:
         rep.error = 'unsupported: %s' % e
     rep.axioms = list(E.axioms)
+    rep.size_hints = list(E.size_hints)
     rep.secs = time.time() - t0
     return rep
